@@ -45,7 +45,9 @@ def main():
                                       "and, where it applies, the repository's own tests run under a recorder are executed on /repo/src and every recorded "
                                       "trace is validated against the same specification (conformance of outcome, post-state and answers; property monitors on logged values)."},
             "level_note": "bounded (constants in the evidence file); trusts TLC, the CommunityModules JSON reader, Python's str.casefold and the recorder's projection of public attributes; spec models the behaviour after the fix: commits listed in known_findings.json",
-            "technique": "TLA+ specification model-checked with TLC + spec-to-code replay + trace validation against the spec",
+            "technique": "TLA+ specification model-checked with TLC + spec-to-code replay + trace validation against the spec"
+                         + (" + TLAPS proof (no bound) bridged by a TLC-checked refinement" if pid in ("C05", "C09", "C12", "C16") else "")
+                         + (" + Apalache symbolic check (unbounded strings)" if pid in ("C05", "C09", "C12") else ""),
         })
     props = [json.loads(l)["id"] for l in open(os.path.join(VERIF, "properties.jsonl"))]
     na = [{"property_id": p, "reason": "check under construction in this round (not yet bound to the implementation)"}
